@@ -95,7 +95,9 @@ func boolList(b bool) []int {
 	return []int{0}
 }
 
-func eqSet(a, b []int) bool { return listToMask(a) == listToMask(b) && len(a) == len(dagx.Bits(listToMask(a))) }
+func eqSet(a, b []int) bool {
+	return listToMask(a) == listToMask(b) && len(a) == len(dagx.Bits(listToMask(a)))
+}
 
 // sampled decides deterministically (independent of worker scheduling) whether an agreeing query is confirmed with git.
 func sampled(every int, parts ...any) bool {
